@@ -1,6 +1,9 @@
 import Bxh.Proofs.ExecLemmas
 import Bxh.Proofs.ExecRec
 import Bxh.Props.C02
+import Bxh.Props.C06
+import Bxh.Proofs.ExecBlock
+import Bxh.Proofs.ExecSupply
 /-!
 # C04 — cross-chain transaction status follows the protocol state machine
 The transition table `Gen.txFsm` is regenerated from `transaction_manager.go` on every run; the
@@ -229,5 +232,196 @@ example :
     recStatus (runIbtps env l [m .interchain, m .receiptSuccess]) t = some .success ∧
     recStatus (runIbtps env l [m .interchain, m .receiptSuccess, m .interchain, m .receiptFailure, m .receiptRollback]) t = some .success := by
   decide
+
+-- ------------------------------------------------------------------------------------ block level
+
+/-- a direct contract call writes interchain counters at most (`DeleteInterchain`) -/
+theorem applyBvm_frame {env : Env} {l : Led} {c m : String} {args : List Arg} {r : Led × String}
+    (e : applyBvm env l c m args = .ok r) (k : Key) (hk : ∀ x, k ≠ .ic x) : r.1.getS k = l.getS k := by
+  unfold applyBvm at e
+  split at e
+  · split at e
+    · split at e
+      · cases e
+      · cases e
+        simp only [Led.getS_setS]
+        rw [if_neg (fun h => hk _ h.symm)]
+    · cases e
+  · split at e
+    · split at e
+      · split at e
+        · cases e; rfl
+        · cases e
+      · cases e
+    · split at e
+      · split at e
+        · split at e
+          · cases e; rfl
+          · cases e
+        · cases e
+      · split at e
+        · split at e <;> cases e
+        · cases e
+
+open Bxh.Props.C02 in
+/-- what is carried through a block for a final record: its destination is index-checked, the pair's counter has passed
+its index, and its status -/
+structure FinalInv (env : Env) (l : Led) (t : TxId) (st : Status) : Prop where
+  ordered : OrderedDst env l t.to
+  bound : t.index ≤ reqCounter l t.frm t.to
+  status : recStatus l t = some st
+
+open Bxh.Props.C02 in
+/-- **one transaction of a block** (any kind, valid or not, fee paid or not) keeps a final record as it is -/
+theorem C04_tx_final_stays (env : Env) (l : Led) (tx : Tx) (inv : Option String) (t : TxId) (st : Status)
+    (hI : FinalInv env l t st) (hf : st.isFinal = true)
+    (hnd : ∀ sg args, tx ≠ .bvm sg "interchain" "DeleteInterchain" args) :
+    FinalInv env (applyTx env l tx inv).1 t st := by
+  obtain ⟨hd, hb, hs⟩ := hI
+  have hsvc : ∀ c sid, (applyTx env l tx inv).1.getS (.svc c sid) = l.getS (.svc c sid) := by
+    intro c sid
+    cases applyTx_effect env l tx inv with
+    | nothing h => rw [h]; rfl
+    | ibtp s i p env' r _ _ _ _ h5 h6 => rw [h6, handleIBTP_svc_frame h5]; rfl
+    | bvm s c' m args r _ h2 h3 => rw [h3, applyBvm_frame h2 _ (by intro x e; cases e)]; rfl
+  refine ⟨?_, ?_, ?_⟩
+  · obtain ⟨h1, h2, h3, h4⟩ := hd
+    exact ⟨h1, h2, h3, fun sv hsv => h4 sv (by rw [← hsvc]; exact hsv)⟩
+  · rcases C02_tx_counter_step env l tx inv t.frm t.to hd hnd with h | ⟨h, _⟩ <;> omega
+  · cases applyTx_effect env l tx inv with
+    | nothing h => rw [recStatus_congr (h _)]; exact hs
+    | bvm s c m args r _ h2 h3 =>
+      rw [recStatus_congr (h3 _), recStatus_congr (applyBvm_frame h2 _ (by intro x e; cases e))]; exact hs
+    | ibtp s i p env' r h1 h2 h3 _ h5 h6 =>
+      rw [recStatus_congr (h6 _)]
+      obtain ⟨ck, hck⟩ := handleIBTP_ok_checked h5
+      have hs0 : recStatus (txStart l) t = some st := hs
+      rcases handleIBTP_rec hck h5 t with e1 | ⟨hreq, ht⟩ | ⟨_, s0, s1, hs1, hstep, _⟩
+      · rw [recStatus_congr e1]; exact hs0
+      · -- a request with the very id `t`: its index would have to be counter + 1, but the counter has passed it
+        exfalso
+        have hd' : OrderedDst env' (txStart l) t.to := by
+          obtain ⟨a1, a2, a3, a4⟩ := hd
+          exact orderedDst_env h2 h3 ⟨a1, a2, a3, fun sv hsv => a4 sv hsv⟩
+        have hdst : ck.dst = t.to := by rw [ht]
+        have hsrc : ck.src = t.frm := by rw [ht]
+        have hnb : ck.isBatch = false := orderedDst_not_batch (by rw [hdst]; exact hd') hck hreq
+        have hidx := C02_accept_needs_next_index env' (txStart l) i ck hck hreq hnb
+        have hi : t.index = i.index := by rw [ht]
+        have hb0 : t.index ≤ reqCounter (txStart l) t.frm t.to := hb
+        unfold reqCounter at hb0
+        rw [← hsrc, ← hdst] at hb0
+        omega
+      · rw [hs0] at hs1
+        cases hs1
+        rw [C04_final_absorbing_step _ _ hf] at hstep
+        cases hstep
+
+/-- the timeout step writes records of transactions and groups only -/
+theorem setTimeoutRollback_frame (l : Led) (h : Nat) (k : Key) (hk1 : ∀ x, k ≠ .txRec x) (hk2 : ∀ x, k ≠ .glob x) :
+    (setTimeoutRollback l h).getS k = l.getS k := by
+  unfold setTimeoutRollback
+  suffices H : ∀ (ids : List TId) (acc : Led × Bool), (ids.foldl (rollbackStep h) acc).1.getS k = acc.1.getS k from H _ (l, false)
+  intro ids
+  induction ids with
+  | nil => intro acc; rfl
+  | cons id rest ih =>
+    intro acc
+    simp only [List.foldl_cons]
+    rw [ih]
+    unfold rollbackStep
+    split
+    · rfl
+    · split
+      · split
+        · simp only [Led.getS_setS]; rw [if_neg (fun e => hk2 _ e.symm)]
+        · rfl
+      · simp only [Led.getS_setS]; rw [if_neg (fun e => hk1 _ e.symm)]
+
+open Bxh.Props.C02 in
+/-- **a whole block keeps a final record as it is, provided the record is not on the timeout list of that block's height
+when the timeout step runs** (the list bookkeeping of `setTimeoutList` is what has to guarantee that; the model driver
+evaluates it on every generated block, evidence tag `model:listedfinal=…`) -/
+theorem C04_block_final_stays (cfg : Cfg) (n : Node) (txs : List (Tx × Bool)) (t : TxId) (st : Status)
+    (hI : FinalInv { cfg := cfg, cache := n.cache, height := 0, txIndex := 0 } n.led t st) (hf : st.isFinal = true)
+    (hnd : ∀ p ∈ txs, ∀ sg args, p.1 ≠ .bvm sg "interchain" "DeleteInterchain" args)
+    (hnl : TId.single t ∉ getTimeoutList
+      (setTimeoutList cfg (applyTxs cfg n.cache (n.height + 1) n.led txs).led (n.height + 1) (txs.map (·.1))
+        (applyTxs cfg n.cache (n.height + 1) n.led txs).rcpts) (n.height + 1)) :
+    FinalInv { cfg := cfg, cache := (execBlock cfg n txs).1.cache, height := 0, txIndex := 0 } (execBlock cfg n txs).1.led t st := by
+  -- the serial loop
+  have loop : ∀ (ts : List (Tx × Bool)) (a : Acc), (∀ p ∈ ts, ∀ sg args, p.1 ≠ .bvm sg "interchain" "DeleteInterchain" args) →
+      FinalInv { cfg := cfg, cache := n.cache, height := 0, txIndex := 0 } a.led t st →
+      FinalInv { cfg := cfg, cache := n.cache, height := 0, txIndex := 0 } (ts.foldl (txStep cfg n.cache (n.height + 1)) a).led t st := by
+    intro ts
+    induction ts with
+    | nil => intro a _ h0; exact h0
+    | cons p rest ih =>
+      intro a hp h0
+      simp only [List.foldl_cons]
+      apply ih _ (fun q hq => hp q (List.mem_cons_of_mem _ hq))
+      unfold txStep
+      simp only
+      obtain ⟨o1, o2, o3⟩ := h0
+      have hconv : ∀ {l' : Led} {e1 e2 : Env}, e2.cache = e1.cache → e2.cfg.bxh = e1.cfg.bxh → FinalInv e1 l' t st → FinalInv e2 l' t st :=
+        fun hc hb h => ⟨orderedDst_env hc hb h.ordered, h.bound, h.status⟩
+      have hstep := C04_tx_final_stays { cfg := cfg, cache := n.cache, height := n.height + 1, txIndex := a.idx } a.led p.1
+        (if !p.2 then some "bad-sig" else match p.1 with
+          | .ibtp _ i pk => proofVerdict cfg i pk
+          | _ => none) t st
+        (hconv (e1 := { cfg := cfg, cache := n.cache, height := 0, txIndex := 0 })
+          (e2 := { cfg := cfg, cache := n.cache, height := n.height + 1, txIndex := a.idx }) rfl rfl ⟨o1, o2, o3⟩) hf (hp p (List.mem_cons_self ..))
+      exact hconv (e1 := { cfg := cfg, cache := n.cache, height := n.height + 1, txIndex := a.idx })
+        (e2 := { cfg := cfg, cache := n.cache, height := 0, txIndex := 0 }) rfl rfl hstep
+  have h1 := loop txs { led := n.led } hnd hI
+  rw [← applyTxs_eq] at h1
+  obtain ⟨o1, o2, o3⟩ := h1
+  unfold execBlock
+  simp only
+  generalize hA : applyTxs cfg n.cache (n.height + 1) n.led txs = A at o1 o2 o3 hnl
+  have hfin : ∀ k, (setTimeoutRollback (setTimeoutList cfg A.led (n.height + 1) (txs.map (·.1)) A.rcpts) (n.height + 1)).finalise.getS k =
+      (setTimeoutRollback (setTimeoutList cfg A.led (n.height + 1) (txs.map (·.1)) A.rcpts) (n.height + 1)).getS k :=
+    fun k => getS_of_store (finalise_store _) k
+  refine ⟨?_, ?_, ?_⟩
+  · obtain ⟨a1, a2, a3, a4⟩ := o1
+    refine ⟨a1, a2, a3, fun sv hsv => a4 sv ?_⟩
+    rw [hfin, setTimeoutRollback_frame _ _ _ (by intro x e; cases e) (by intro x e; cases e),
+      setTimeoutList_getS _ _ _ _ _ _ (by intro x e; cases e)] at hsv
+    exact hsv
+  · have := C02_timeout_steps_keep_counters cfg A.led (n.height + 1) (txs.map (·.1)) A.rcpts t.frm t.to
+    rw [reqCounter_congr (fun x => hfin _) t.frm t.to, this]
+    exact o2
+  · rw [recStatus_congr (hfin _), recStatus_congr (Bxh.Props.C06.C06_not_listed_untouched _ _ t hnl),
+      recStatus_congr (setTimeoutList_getS _ _ _ _ _ _ (by intro x e; cases e))]
+    exact o3
+
+/-- the record of `t` is not on the timeout list of the block's height when the timeout step of that block runs -/
+def NotListedAtStep (cfg : Cfg) (n : Node) (txs : List (Tx × Bool)) (t : TxId) : Prop :=
+  TId.single t ∉ getTimeoutList
+    (setTimeoutList cfg (applyTxs cfg n.cache (n.height + 1) n.led txs).led (n.height + 1) (txs.map (·.1))
+      (applyTxs cfg n.cache (n.height + 1) n.led txs).rcpts) (n.height + 1)
+
+theorem execBlock_cache (cfg : Cfg) (n : Node) (txs : List (Tx × Bool)) : (execBlock cfg n txs).1.cache = n.cache := rfl
+
+/-- **SUCCESS, FAILURE and ROLLBACK are final over every history of blocks** (any transactions, fees paid or not, timeouts in
+between) — as long as the record is never on the list of the height whose timeout step runs, and nobody calls the unguarded
+`DeleteInterchain` (an open finding of C17) -/
+theorem C04_block_history_final_stays (cfg : Cfg) (blocks : List (List (Tx × Bool))) (n : Node) (t : TxId) (st : Status)
+    (hI : FinalInv { cfg := cfg, cache := n.cache, height := 0, txIndex := 0 } n.led t st) (hf : st.isFinal = true)
+    (hnd : ∀ b ∈ blocks, ∀ p ∈ b, ∀ sg args, p.1 ≠ .bvm sg "interchain" "DeleteInterchain" args)
+    (hnl : ∀ k (hk : k < blocks.length), NotListedAtStep cfg (runBlocks cfg n (blocks.take k)) blocks[k] t) :
+    recStatus (runBlocks cfg n blocks).led t = some st := by
+  suffices H : FinalInv { cfg := cfg, cache := (runBlocks cfg n blocks).cache, height := 0, txIndex := 0 } (runBlocks cfg n blocks).led t st from H.status
+  induction blocks generalizing n with
+  | nil => exact hI
+  | cons b rest ih =>
+    have h0 := hnl 0 (by simp)
+    simp only [List.take_zero, List.getElem_cons_zero] at h0
+    have hstep := C04_block_final_stays cfg n b t st hI hf (hnd b (List.mem_cons_self ..)) h0
+    have := ih (execBlock cfg n b).1 hstep (fun b' hb' => hnd b' (List.mem_cons_of_mem _ hb'))
+      (fun k hk => by
+        have := hnl (k + 1) (by simp; omega)
+        simpa [runBlocks] using this)
+    simpa [runBlocks] using this
 
 end Bxh.Props.C04
